@@ -108,6 +108,9 @@ type MapScen struct {
 	// Cycled: before the scenario's own prologue the map grows and shrinks back to its minimum length
 	// (the scenario starts from a non-initial state: used table, used counter stripes, a resize history)
 	Cycled bool
+	// NilValue: the keys initially present hold the nil interface value (Map only; the reference model has no
+	// notion of it, so only the monitors of such a scenario are meaningful)
+	NilValue bool
 	// GrowOnly: the map is built WithGrowOnly() (never shrinks; Clear must still empty it)
 	GrowOnly  bool
 	Threads   [][]MIn
@@ -135,6 +138,9 @@ func (ms *MapScen) name() string {
 	}
 	if ms.GrowOnly {
 		sb.WriteString("/grow-only")
+	}
+	if ms.NilValue {
+		sb.WriteString("/nil-values")
 	}
 	if ms.Cycled {
 		sb.WriteString("/after-grow-and-shrink")
@@ -214,6 +220,10 @@ func (ms *MapScen) setupRaw(out *MapLike) MState {
 	putKeys := func() {
 		for k := 0; k < ms.NKeys; k++ {
 			if ms.Init[k] != 0 {
+				if ms.NilValue {
+					m.Store(k, 0) // boxed as the nil interface
+					continue
+				}
 				m.Store(k, k+1)
 				st[k] = int32(k + 1)
 			}
